@@ -182,6 +182,8 @@ inductive W where
   | f16 (p : Nat)
   | f32 (p : Nat)
   | f64 (bits : Nat)
+  | undefined                     -- 0xf7: no `value` field, torepr gives null
+  | simple (n : Nat)              -- 0xe0+n, n < 20 (unassigned simple values): null as well
 deriving Repr, Inhabited
 
 def headOk : Head → Nat → Bool
@@ -236,6 +238,8 @@ def valid : W → Bool
   | .f16 p => decide (p < 2^16)
   | .f32 p => decide (p < 2^32)
   | .f64 b => decide (b < 2^64)
+  | .undefined => true
+  | .simple n => decide (n < 20)
 def validL : List W → Bool
   | [] => true
   | x :: xs => valid x && validL xs
@@ -281,6 +285,8 @@ def value : W → V
   | .f16 p => .float (widen16 p)
   | .f32 p => .float (widen32 p)
   | .f64 b => .float b
+  | .undefined => .null
+  | .simple _ => .null
 def valueL : List W → List V
   | [] => []
   | x :: xs => value x :: valueL xs
@@ -305,6 +311,8 @@ def encode : W → Bytes
   | .f16 p => byte 0xf9 :: toBE 2 p
   | .f32 p => byte 0xfa :: toBE 4 p
   | .f64 b => byte 0xfb :: toBE 8 b
+  | .undefined => [byte 0xf7]
+  | .simple n => [byte (0xe0 + n)]
 def encodeL : List W → Bytes
   | [] => []
   | x :: xs => encode x ++ encodeL xs
